@@ -90,27 +90,31 @@ Definition num_denote (tok : bytes) : dval :=
 (* ---- GraphQL IntValue / FloatValue (spec 2.9.1, 2.9.2), on the whole token ----
    IntegerPart  :: NegativeSign? 0 | NegativeSign? NonZeroDigit Digit*
    FloatValue   :: IntegerPart FractionalPart | IntegerPart ExponentPart | IntegerPart FractionalPart ExponentPart *)
+(* [eat c s]: s without its first byte when that byte is c *)
+Definition eat (c : byte) (s : bytes) : option bytes :=
+  match s with b :: r => if b =? c then Some r else None | [] => None end.
+Definition eat2 (c d : byte) (s : bytes) : option (byte * bytes) :=
+  match s with b :: r => if (b =? c) || (b =? d) then Some (b, r) else None | [] => None end.
+Definition is_nil (s : bytes) : bool := match s with [] => true | _ => false end.
+Definition leading_zero (digits : bytes) : bool :=
+  match digits with d0 :: ds => (d0 =? 48) && negb (is_nil ds) | [] => false end.
+
 Definition gql_integer_part (s : bytes) : option bytes :=   (* returns what follows the IntegerPart *)
-  let s1 := match s with 45 :: r => r | _ => s end in
-  match span_digits s1 with
-  | ([], _) => None
-  | (d0 :: ds, rest) => if (d0 =? 48) && negb (match ds with [] => true | _ => false end) then None else Some rest
-  end.
+  let s1 := match eat 45 s with Some r => r | None => s end in
+  let (ip, rest) := span_digits s1 in
+  if is_nil ip || leading_zero ip then None else Some rest.
 Definition gql_fraction (s : bytes) : option bytes :=
-  match s with
-  | 46 :: r => match span_digits r with ([], _) => None | (_, rest) => Some rest end
-  | _ => None
+  match eat 46 s with
+  | Some r => let (fp, rest) := span_digits r in if is_nil fp then None else Some rest
+  | None => None
   end.
 Definition gql_exponent (s : bytes) : option bytes :=
-  match s with
-  | x :: r =>
-    if (x =? 101) || (x =? 69) then
-      let r1 := match r with y :: r' => if (y =? 45) || (y =? 43) then r' else r | [] => r end in
-      match span_digits r1 with ([], _) => None | (_, rest) => Some rest end
-    else None
-  | [] => None
+  match eat2 101 69 s with
+  | Some (_, r) =>
+    let r1 := match eat2 45 43 r with Some (_, r') => r' | None => r end in
+    let (ep, rest) := span_digits r1 in if is_nil ep then None else Some rest
+  | None => None
   end.
-Definition is_nil (s : bytes) : bool := match s with [] => true | _ => false end.
 Definition gql_int_ok (tok : bytes) : bool :=
   match gql_integer_part tok with Some rest => is_nil rest | None => false end.
 Definition gql_float_ok (tok : bytes) : bool :=
@@ -124,44 +128,36 @@ Definition gql_float_ok (tok : bytes) : bool :=
   end.
 
 (* ---- RFC 8259 section 6: number = [ minus ] int [ frac ] [ exp ], longest match at the head ---- *)
-Definition json_scan_number (s : bytes) : option (bytes * bytes) :=   (* (token, rest) *)
-  let (sign, s1) := match s with 45 :: r => ([45], r) | _ => ([], s) end in
-  match span_digits s1 with
-  | ([], _) => None
-  | (d0 :: ds, s2) =>
-    if (d0 =? 48) && negb (is_nil ds) then None          (* leading zero *)
-    else
-      let after_frac :=
-          match s2 with
-          | 46 :: r => match span_digits r with
-                       | ([], _) => None                  (* `1.` : frac needs 1*DIGIT *)
-                       | (fd, s3) => Some (46 :: fd, s3)
-                       end
-          | _ => Some ([], s2)
-          end in
-      match after_frac with
+Definition json_scan_frac (s2 : bytes) : option (bytes * bytes) :=     (* [ frac ] ; frac = decimal-point 1*DIGIT *)
+  match eat 46 s2 with
+  | Some r => let (fd, s3) := span_digits r in if is_nil fd then None else Some (46 :: fd, s3)
+  | None => Some ([], s2)
+  end.
+Definition json_scan_exp (s3 : bytes) : option (bytes * bytes) :=      (* [ exp ] ; exp = e [ minus / plus ] 1*DIGIT *)
+  match eat2 101 69 s3 with
+  | Some (x, r) =>
+    let r1 := match eat2 45 43 r with Some (_, r') => r' | None => r end in
+    let sg : bytes := match eat2 45 43 r with Some (y, _) => [y] | None => [] end in
+    let (ed, s4) := span_digits r1 in
+    if is_nil ed then None else Some (x :: sg ++ ed, s4)
+  | None => Some ([], s3)
+  end.
+Definition json_scan_unsigned (s1 : bytes) : option (bytes * bytes) :=   (* int [ frac ] [ exp ] *)
+  let (ip, s2) := span_digits s1 in
+  if is_nil ip || leading_zero ip then None
+  else
+    match json_scan_frac s2 with
+    | None => None
+    | Some (frac, s3) =>
+      match json_scan_exp s3 with
       | None => None
-      | Some (frac, s3) =>
-        let after_exp :=
-            match s3 with
-            | x :: r =>
-              if (x =? 101) || (x =? 69) then
-                let (sg, r1) := match r with
-                                | y :: r' => if (y =? 45) || (y =? 43) then ([y], r') else ([], r)
-                                | [] => ([], r)
-                                end in
-                match span_digits r1 with
-                | ([], _) => None
-                | (ed, s4) => Some (x :: sg ++ ed, s4)
-                end
-              else Some ([], s3)
-            | [] => Some ([], s3)
-            end in
-        match after_exp with
-        | None => None
-        | Some (ex, s4) => Some (sign ++ (d0 :: ds) ++ frac ++ ex, s4)
-        end
+      | Some (ex, s4) => Some (ip ++ frac ++ ex, s4)
       end
+    end.
+Definition json_scan_number (s : bytes) : option (bytes * bytes) :=   (* (token, rest) *)
+  match eat 45 s with
+  | Some r => match json_scan_unsigned r with Some (t, rest) => Some (45 :: t, rest) | None => None end
+  | None => json_scan_unsigned s
   end.
 
 (* ================================================================== strings *)
@@ -273,14 +269,15 @@ Definition spec_block_delimited (raw : bytes) : bool :=
   end.
 
 (* rawValue: BACKSLASH-TRIPLEQUOTE stands for TRIPLEQUOTE *)
+Definition starts_esc_triple (s : bytes) : bool :=
+  match s with
+  | a :: b :: c :: d :: _ => (a =? 92) && (b =? 34) && (c =? 34) && (d =? 34)
+  | _ => false
+  end.
 Fixpoint block_unescape (s : bytes) : bytes :=
   match s with
   | [] => []
-  | b :: r =>
-    match s with
-    | 92 :: 34 :: 34 :: 34 :: _ => block_unescape r
-    | _ => b :: block_unescape r
-    end
+  | b :: r => if starts_esc_triple s then block_unescape r else b :: block_unescape r
   end.
 
 (* lines = rawValue split by LineTerminator (LF, CR LF, CR) *)
@@ -291,8 +288,8 @@ Fixpoint sp_lines (s : bytes) (cur_rev : bytes) : list bytes :=
     if b =? 10 then rev cur_rev :: sp_lines r []
     else if b =? 13 then
       match r with
-      | 10 :: r' => rev cur_rev :: sp_lines r' []
-      | _ => rev cur_rev :: sp_lines r []
+      | c :: r' => if c =? 10 then rev cur_rev :: sp_lines r' [] else rev cur_rev :: sp_lines r []
+      | [] => rev cur_rev :: sp_lines r []
       end
     else sp_lines r (b :: cur_rev)
   end.
@@ -422,6 +419,9 @@ Arguments POk {A} a rest.
 Arguments PErr {A}.
 Arguments PFuel {A}.
 
+Definition lift {A B : Type} (f : A -> B) (p : pres A) : pres B :=
+  match p with POk a r => POk (f a) r | PErr => PErr | PFuel => PFuel end.
+
 Fixpoint parse_value (strict : bool) (fuel : nat) (s : bytes) {struct fuel} : pres dval :=
   match fuel with
   | O => PFuel
@@ -435,22 +435,14 @@ Fixpoint parse_value (strict : bool) (fuel : nat) (s : bytes) {struct fuel} : pr
       else if b =? 34 then
         match json_str strict r with Some (str, r') => POk (DStr str) r' | None => PErr end
       else if b =? 91 then
-        match skip_ws r with
-        | 93 :: r' => POk (DList []) r'
-        | _ => match parse_elems strict f r with
-               | POk l r' => POk (DList l) r'
-               | PErr => PErr
-               | PFuel => PFuel
-               end
+        match eat 93 (skip_ws r) with
+        | Some r' => POk (DList []) r'
+        | None => lift DList (parse_elems strict f r)
         end
       else if b =? 123 then
-        match skip_ws r with
-        | 125 :: r' => POk (DObj []) r'
-        | _ => match parse_members strict f r with
-               | POk m r' => POk (DObj m) r'
-               | PErr => PErr
-               | PFuel => PFuel
-               end
+        match eat 125 (skip_ws r) with
+        | Some r' => POk (DObj []) r'
+        | None => lift DObj (parse_members strict f r)
         end
       else if (b =? 45) || is_digit b then
         match json_scan_number (b :: r) with
@@ -467,13 +459,11 @@ with parse_elems (strict : bool) (fuel : nat) (s : bytes) {struct fuel} : pres (
     match parse_value strict f s with
     | POk d r =>
       match skip_ws r with
-      | 44 :: r' => match parse_elems strict f r' with
-                    | POk l r'' => POk (d :: l) r''
-                    | PErr => PErr
-                    | PFuel => PFuel
-                    end
-      | 93 :: r' => POk [d] r'
-      | _ => PErr
+      | c :: r' =>
+        if c =? 44 then lift (cons d) (parse_elems strict f r')
+        else if c =? 93 then POk [d] r'
+        else PErr
+      | [] => PErr
       end
     | PErr => PErr
     | PFuel => PFuel
@@ -483,31 +473,29 @@ with parse_members (strict : bool) (fuel : nat) (s : bytes) {struct fuel} : pres
   match fuel with
   | O => PFuel
   | S f =>
-    match skip_ws s with
-    | 34 :: r =>
+    match eat 34 (skip_ws s) with
+    | Some r =>
       match json_str strict r with
       | None => PErr
       | Some (k, r1) =>
-        match skip_ws r1 with
-        | 58 :: r2 =>
+        match eat 58 (skip_ws r1) with
+        | Some r2 =>
           match parse_value strict f r2 with
           | POk d r3 =>
             match skip_ws r3 with
-            | 44 :: r4 => match parse_members strict f r4 with
-                          | POk m r5 => POk ((k, d) :: m) r5
-                          | PErr => PErr
-                          | PFuel => PFuel
-                          end
-            | 125 :: r4 => POk [(k, d)] r4
-            | _ => PErr
+            | c :: r4 =>
+              if c =? 44 then lift (cons (k, d)) (parse_members strict f r4)
+              else if c =? 125 then POk [(k, d)] r4
+              else PErr
+            | [] => PErr
             end
           | PErr => PErr
           | PFuel => PFuel
           end
-        | _ => PErr
+        | None => PErr
         end
       end
-    | _ => PErr
+    | None => PErr
     end
   end.
 
